@@ -19,6 +19,7 @@ import (
 	"github.com/alttpo/snes/emulator"
 	"github.com/alttpo/snes/emulator/bus"
 	"github.com/alttpo/snes/emulator/cpu65c816"
+	"github.com/alttpo/snes/emulator/cpualt"
 	"github.com/alttpo/snes/mapping/util"
 
 	"verif/internal/mem"
@@ -778,6 +779,78 @@ func C18(r *vf.Run) {
 		}
 		r.Eval(int64(2 * G * steps))
 		r.CellN("decimal-loops-in-parallel", int64(G))
+	}
+	// partial memory maps: every goroutine's own cpualt CPU has memory attached for its code bank only; its
+	// program keeps loading from addresses nothing is attached to (cpualt answers those from its own bus:
+	// the last value it carried) and from its zero page. What one CPU reads there is its own business.
+	{
+		G := r.N(8, 16)
+		steps := r.N(40000, 400000)
+		type obActor struct {
+			c   *cpualt.CPU
+			ram []byte
+		}
+		acts := make([]*obActor, G)
+		for i := range acts {
+			a := &obActor{c: newAltCPU(), ram: make([]byte, 1<<16)}
+			a.c.Init()
+			a.c.Bus.AttachReader(0, 0xFFFF, func(ad uint32) uint8 { return a.ram[ad&0xFFFF] })
+			a.c.Bus.AttachWriter(0, 0xFFFF, func(ad uint32, v uint8) { a.ram[ad&0xFFFF] = v })
+			acts[i] = a
+		}
+		seedO := r.Rand("openbus").U64()
+		runOB := func(i int) uint64 {
+			a := acts[i]
+			g := vf.NewRng(seedO ^ uint64(i+1)*0x9E3779B97F4A7C15)
+			for k := range a.ram[:0x200] {
+				a.ram[k] = g.U8()
+			}
+			hole1 := uint32(0x400000+g.Intn(0x3E0000)) | uint32(i)<<4
+			hole2 := uint32(0x800000+g.Intn(0x7F0000)) | uint32(i)
+			// loop: LDA long hole1 ; ADC $10 ; STA $10 ; LDA long,X hole2 ; EOR $11 ; STA $11 ; INX ; BRA loop   (8-bit)
+			prog := []byte{0xAF, byte(hole1), byte(hole1 >> 8), byte(hole1 >> 16), 0x65, 0x10, 0x85, 0x10,
+				0xBF, byte(hole2), byte(hole2 >> 8), byte(hole2 >> 16), 0x45, 0x11, 0x85, 0x11, 0xE8}
+			prog = append(prog, 0x80, byte(0x100-len(prog)-2))
+			copy(a.ram[0x8000:], prog)
+			c := a.c
+			c.Reset()
+			c.Bus.M = 0
+			c.RK, c.PC, c.SP, c.RD, c.RDBR = 0, 0x8000, 0x01FF, 0, 0
+			c.E, c.M, c.X, c.D, c.C = 0, 1, 1, 0, 0
+			c.RA, c.RAl, c.RAh, c.RX, c.RXl = 0, byte(i), 0, 0, 0
+			c.Stopped = false
+			d := uint64(1469598103934665603)
+			pan := vf.Try(func() {
+				for s := 0; s < steps; s++ {
+					c.Step()
+					d = d*1099511628211 ^ uint64(c.RAl) ^ uint64(c.C)<<8
+				}
+			})
+			if pan != nil {
+				d = mixStr(d, fmt.Sprint("panic:", pan))
+			}
+			return mixU64(d, uint64(a.ram[0x10])<<8|uint64(a.ram[0x11]))
+		}
+		solo := make([]uint64, G)
+		for i := range solo {
+			solo[i] = runOB(i)
+		}
+		conc := make([]uint64, G)
+		vf.Parallel(G, G, func(w, i int) { conc[i] = runOB(i) })
+		for i := range conc {
+			if conc[i] != solo[i] {
+				r.Fail("result-differs-from-solo", fmt.Sprintf("cpualt CPU %d of %d, each with memory attached for its own code bank only and loading from unattached addresses at the same time: digest of the accumulator sequence %016x, %016x alone", i, G, conc[i], solo[i]), nil)
+				break
+			}
+		}
+		// ... and a CPU is not influenced by which others exist: the same program on a CPU created and run
+		// before any of the others ran gives the same digest as afterwards
+		again := runOB(0)
+		if again != solo[0] {
+			r.Fail("result-differs-from-solo", fmt.Sprintf("cpualt CPU 0 repeats its program after %d other CPUs ran theirs: digest %016x, %016x the first time", G-1, again, solo[0]), nil)
+		}
+		r.Eval(int64(2 * G * steps))
+		r.CellN("cpualt-partial-maps-in-parallel", int64(G))
 	}
 	// common ancestry: emitters that were separately created but received the same fragment (Append) or
 	// were cloned from the same parent, before the goroutines started; afterwards each is driven only by
